@@ -11,6 +11,7 @@ import (
 	"strings"
 
 	"github.com/smart-core-os/sc-api/go/types"
+	"google.golang.org/protobuf/proto"
 
 	"github.com/smart-core-os/sc-golang/pkg/resource"
 	"verifrt"
@@ -168,7 +169,64 @@ func concCollectionBody(name string, updatesOnly, lossyNeighbour bool) func() {
 	}
 }
 
+// twoSeedsBody: a caller opens a subscription on a collection of three items, writes one of them, and opens a
+// second subscription (on everything, on one item only, or updates-only) - all before the first consumer has read
+// a thing. Each seed is that subscriber's own snapshot: the first one's is the collection BEFORE the write (sorted,
+// complete, one last-seed flag) followed by the write's event; the second one's is the collection after it.
+func twoSeedsBody(name string, second string) func() {
+	return func() {
+		col := resource.NewCollection(resource.WithInitialRecord("a", val{1, "i"}.msg()), resource.WithInitialRecord("b", val{2, "i"}.msg()), resource.WithInitialRecord("c", val{3, "i"}.msg()))
+		ctx, cancel := context.WithCancel(context.Background())
+		defer cancel()
+		got := make([][]string, 2)
+		consume := func(i int, ch <-chan *resource.CollectionChange) {
+			go func() {
+				for c := range ch {
+					k := c.ChangeType.String()
+					if c.SeedValue {
+						k = "seed"
+						if c.LastSeedValue {
+							k = "last-seed"
+						}
+					}
+					got[i] = append(got[i], fmt.Sprintf("%s:%s=%d", k, c.Id, c.NewValue.(*T).DefaultInt32))
+				}
+			}()
+		}
+		// the first subscriber takes its events without backpressure (the write does not wait for it), the second
+		// one is the backpressured subscriber of the statement; nobody reads until both are open
+		ch0 := col.Pull(ctx)
+		if _, err := col.Update("b", val{20, "w"}.msg()); err != nil {
+			verifrt.Logf("FAIL two-seeds-write %s ## %v", name, err)
+		}
+		var opts []resource.ReadOption
+		switch second {
+		case "only-c":
+			opts = append(opts, resource.WithInclude(func(id string, _ proto.Message) bool { return id == "c" }))
+		case "updates-only":
+			opts = append(opts, resource.WithUpdatesOnly(true))
+		}
+		ch1 := col.Pull(ctx, append(opts, resource.WithBackpressure(true))...)
+		consume(0, ch0)
+		consume(1, ch1)
+		verifrt.WaitIdle()
+		want := []string{"seed:a=1 seed:b=2 last-seed:c=3 UPDATE:b=20", map[string]string{"all": "seed:a=1 seed:b=20 last-seed:c=3", "only-c": "last-seed:c=3", "updates-only": ""}[second]}
+		for i := range got {
+			if g := strings.Join(got[i], " "); g != want[i] {
+				verifrt.Logf("FAIL two-seeds %s ## subscriber %d received [%s], expected [%s]", name, i, g, want[i])
+			}
+		}
+		verifrt.Logf("OUT %v", got)
+	}
+}
+
 func registerConcurrent(h *hx.H) {
+	for _, second := range []string{"all", "only-c", "updates-only"} {
+		name := fmt.Sprintf("concurrent/collection/subscribe; update b; subscribe again (%s) before the first consumer reads", second)
+		// (bounded, not "all schedules with sleep sets": the reduction only knows the locks and channels two threads
+		// share - what one subscription's goroutine and the other's Pull have in common here, if anything, is memory)
+		h.Sched(name, 2, 3, twoSeedsBody(name, second), hx.StdOracle)
+	}
 	for _, uo := range []bool{false, true} {
 		for _, n := range []int{1, 2, 3} {
 			name := fmt.Sprintf("concurrent/value/updatesOnly=%v/writes=%d", uo, n)
